@@ -39,18 +39,19 @@ func removeTwoNodeCycles(g *graph.DGraph) {
 	type pair [2]*graph.Node
 
 	seen := map[pair]bool{}
-	rev := graph.EdgeSet{}
+	// a slice, not a set: the order of reversals decides the order of the nodes' edge lists
+	rev := []*graph.Edge{}
 
 	for _, e := range g.Edges {
 		a, b := e.From, e.To
 		// only an edge in the opposite direction closes a two-node cycle, a parallel edge does not
 		if seen[pair{b, a}] {
-			rev[e] = true
+			rev = append(rev, e)
 		} else {
 			seen[pair{a, b}] = true
 		}
 	}
-	for e := range rev {
+	for _, e := range rev {
 		e.Reverse()
 	}
 }
